@@ -1624,16 +1624,25 @@ def r_header_lex(P, L, s, d):
     return None
 
 
-_TP_TAKE = "Iterator::take(str::lines(input), SubWithOverflow((pos.row as usize), 1).0)"
-_TP_SUM = "Iterator::sum(Iterator::map(%s, closure({closure#0})))" % _TP_TAKE
-TEXT_POS_SITES = {
-    # (function suffix, construct, a / args[0], b): why it cannot trip under the library assumption
-    ("", "Overflow(Sub)", "(pos.row as usize)", "1"): "row >= 1",
-    ("::{closure#0}", "Overflow(Add)", "str::len(elem(%s))" % _TP_TAKE, "1"): "a line of the text plus its line break is no longer than the text",
-    ("", "Iterator::sum", "Iterator::map(%s, closure({closure#0}))" % _TP_TAKE, None): "the first row-1 lines with their line breaks are a prefix of the text",
-    ("", "Overflow(Add)", _TP_SUM, "(pos.col as usize)"): "prefix length + column <= 2 * len(text)",
-    ("", "Overflow(Sub)", "AddWithOverflow(%s, (pos.col as usize)).0" % _TP_SUM, "1"): "column >= 1",
-}
+def _text_pos_sites():
+    out = {}
+    # with overflow checks (`SubWithOverflow(a, b).0`) and without (`Sub(a, b)`): the same computation in both build configurations
+    for sub, add in ((lambda a, b: "SubWithOverflow(%s, %s).0" % (a, b), lambda a, b: "AddWithOverflow(%s, %s).0" % (a, b)),
+                     (lambda a, b: "Sub(%s, %s)" % (a, b), lambda a, b: "Add(%s, %s)" % (a, b))):
+        take = "Iterator::take(str::lines(input), %s)" % sub("(pos.row as usize)", "1")
+        summ = "Iterator::sum(Iterator::map(%s, closure({closure#0})))" % take
+        out.update({
+            # (function suffix, construct, a / args[0], b): why it cannot trip under the library assumption
+            ("", "Overflow(Sub)", "(pos.row as usize)", "1"): "row >= 1",
+            ("::{closure#0}", "Overflow(Add)", "str::len(elem(%s))" % take, "1"): "a line of the text plus its line break is no longer than the text",
+            ("", "Iterator::sum", "Iterator::map(%s, closure({closure#0}))" % take, None): "the first row-1 lines with their line breaks are a prefix of the text",
+            ("", "Overflow(Add)", summ, "(pos.col as usize)"): "prefix length + column <= 2 * len(text)",
+            ("", "Overflow(Sub)", add(summ, "(pos.col as usize)"), "1"): "column >= 1",
+        })
+    return out
+
+
+TEXT_POS_SITES = _text_pos_sites()
 
 
 def r_text_pos(P, L, s, d):
